@@ -33,6 +33,24 @@ type SpecLib struct {
 	OpaqueOrder []string
 }
 
+// TextUsed is TextFor restricted to the opaque symbols that the query text mentions (their
+// axioms are quantified and would only make satisfiability checks inconclusive elsewhere).
+func (lib *SpecLib) TextUsed(reveal map[string]bool, query string) string {
+	var sb strings.Builder
+	sb.WriteString(lib.Text)
+	for _, n := range lib.OpaqueOrder {
+		if !strings.Contains(query, "("+n+" ") {
+			continue
+		}
+		if reveal[n] {
+			sb.WriteString(lib.Opaque[n][0])
+		} else {
+			sb.WriteString(lib.Opaque[n][1])
+		}
+	}
+	return sb.String()
+}
+
 // TextFor renders the library with the given opaque definitions revealed.
 func (lib *SpecLib) TextFor(reveal map[string]bool) string {
 	var sb strings.Builder
@@ -1059,7 +1077,7 @@ func (e *Env) call(v *ast.CallExpr, want *Sort) T {
 		if pp := g.prog.typesPkg(pd.Pkg); pp != nil {
 			c.pkg = pp
 		}
-		t := c.compileBool(pd.Body.Expr)
+		t := c.compile(pd.Body.Expr, want)
 		e.errs = append(e.errs, c.errs...)
 		return t
 	}
